@@ -34,10 +34,21 @@ def setup_symbolic() -> None:
     lib.register()
 
 
+class _Spectra:
+    """holder of a NESTED data type: its __qualname__ ('_Spectra.Trace') differs from its __name__ ('Trace')"""
+    Trace = None
+
+
 def _types():
     from vt import lib
 
-    return [lib.IntData, lib.OtherData, lib.SubIntData]
+    if _Spectra.Trace is None:
+        class Trace(lib.IntData):
+            """nested payload type"""
+
+        Trace.__qualname__ = "_Spectra.Trace"
+        _Spectra.Trace = Trace
+    return [lib.IntData, lib.OtherData, lib.SubIntData, _Spectra.Trace]
 
 
 def _mk(kind: str, ti: int, to: int, mask: int, parent_first: bool):
@@ -269,7 +280,7 @@ def _mk(kind: str, ti: int, to: int, mask: int, parent_first: bool):
 
         S = make_slicer(OpSame, lib.IntColl)
         p = Pipeline([{"processor": lib.OpMkColl}, {"processor": S}, {"processor": make_slicer(Pr, lib.IntColl), "context_key": "ck"}], logger=lib.QUIET)
-        if tin is lib.IntData or tin is lib.SubIntData:
+        if tin is lib.IntData or tin is lib.SubIntData or tin is _Spectra.Trace:
             try:
                 p.process(Payload(lib.IntData(1), ContextType({})))
             except Exception:  # noqa: BLE001
@@ -355,9 +366,9 @@ def _make(kind: str):
         from crosshair.tracers import NoTracing
         from vt.engine import assume
 
-        assume(0 <= ti < 3 and 0 <= to < 3 and 0 <= mask < 8)
-        cti = next(i for i in range(3) if ti == i)
-        cto = next(i for i in range(3) if to == i)
+        assume(0 <= ti < 4 and 0 <= to < 4 and 0 <= mask < 8)
+        cti = next(i for i in range(4) if ti == i)
+        cto = next(i for i in range(4) if to == i)
         cm = next(i for i in range(8) if mask == i)
         cpf = True if parent_first else False
         with NoTracing():
@@ -376,7 +387,7 @@ def _replay(kind, a):
 def obligations(tier: str) -> List[Ob]:
     return [
         Ob("C16.P", _make, _replay, params=list(KINDS), budget=600,
-           bound="20 wrapping paths (incl. a class that is both source and sink, and slicers around sweep-generated classes); whether a second, different node of the same kind is generated before the catalogue is consulted (flag); input and output type from a 3-type lattice, created-key set as a 3-bit mask, wrapping-order flag (subclass before/after parent) - all symbolic selectors; every leaf builds real nodes through the real factories",
+           bound="20 wrapping paths (incl. a class that is both source and sink, and slicers around sweep-generated classes); whether a second, different node of the same kind is generated before the catalogue is consulted (flag); input and output type from a 4-type lattice (incl. a nested class whose __qualname__ differs from its __name__), created-key set as a 3-bit mask, wrapping-order flag (subclass before/after parent) - all symbolic selectors; every leaf builds real nodes through the real factories",
            targets=["semantiva/pipeline/nodes/_pipeline_node_factory.py:_pipeline_node_factory", "semantiva/data_processors/io_operation_factory.py:_IOOperationFactory.create_data_operation", "semantiva/data_processors/data_slicer_factory.py:_SlicingDataProcessorFactory.create", "semantiva/data_processors/parametric_sweep_factory.py:ParametricSweepFactory.create", "semantiva/context_processors/factory.py:_context_renamer_factory", "semantiva/contracts/expectations.py:validate_component"], stubs=["str"]),
     ]
 
